@@ -50,7 +50,7 @@ def simple_source(doc, kind):
     raise ValueError(kind)
 
 
-def call(thunk, faults=None, norm=None, retain=None, graph=False):
+def call(thunk, faults=None, norm=None, retain=None, graph=False, nested=None):
     """Run thunk() inside a fresh OpContext; returns (outcome dict, ctx).
 
     outcome: {'status': 'ok', 'value': canon} | {'status': 'exc', 'exc': qualname,
@@ -59,6 +59,7 @@ def call(thunk, faults=None, norm=None, retain=None, graph=False):
     after the context has been uninstalled.
     """
     ctx = seam.OpContext(faults)
+    ctx.nested = dict(nested) if nested else None
     prev = seam.current()
     seam.install(ctx)
     try:
